@@ -143,6 +143,29 @@ func genProgress(s *src, o *out) {
 	o.defRunes("progress_bar_open", c20Str(m[6]))
 	o.defRunes("progress_bar_close", c20Str(m[9]))
 
+	// ---- the session around the bar (filter.go): pinned, the model transcribes them by hand
+	c20Match(s, "TrzszFilter.SetTerminalColumns", s.fn("TrzszFilter.SetTerminalColumns").Body,
+		c20Q("{ filter.options.TerminalColumns = columns if progress := filter.progress.Load(); progress != nil { progress.setTerminalColumns(columns) } }"))
+	m = c20Match(s, "TrzszFilter.createProgressBar", s.fn("TrzszFilter.createProgressBar").Body,
+		c20Q("{ if quiet { filter.progress.Store(nil) return } colorPair := \"\" if color := filter.progressColorPair.Load(); color != nil { colorPair = *color } if tmuxPaneColumns > filter.options.TerminalColumns { tmuxPaneColumns = ")+`(\d+)`+
+			c20Q(" } filter.progress.Store(newTextProgressBar(filter.clientOut, filter.options.TerminalColumns, tmuxPaneColumns, filter.trigger.tmuxPrefix, colorPair)) }"))
+	o.defZ("progress_pane_ignored", c20Int(m[1]))
+	c20Match(s, "TrzszFilter.resetProgressBar", s.fn("TrzszFilter.resetProgressBar").Body,
+		c20Q("{ if progress := filter.progress.Load(); progress != nil { progress.showCursor() } filter.progress.Store(nil) }"))
+	m = c20Match(s, "showCursor", s.fn("textProgressBar.showCursor").Body, c20Q("{ p.writeProgress(")+c20StrLit+c20Q(") }"))
+	o.defRunes("progress_show_cursor", c20Str(m[1]))
+	stopTxt := s.text(s.fn("TrzszFilter.confirmStopTransfer").Body)
+	if !strings.Contains(stopTxt, "if progress := filter.progress.Load(); progress != nil { progress.setPause(true) defer func() { progress.setTerminalColumns(filter.options.TerminalColumns) progress.setPause(false) }() ") {
+		die("filter.go: confirmStopTransfer no longer pauses the bar and restores the session width afterwards as expected:\n  have: %s", stopTxt)
+	}
+	for _, fn := range []string{"TrzszFilter.downloadFiles", "TrzszFilter.uploadFiles"} {
+		txt := s.text(s.fn(fn).Body)
+		if !strings.Contains(txt, "filter.createProgressBar(config.Quiet, config.TmuxPaneColumns) defer filter.resetProgressBar() ") ||
+			!strings.Contains(txt, ", filter.progress.Load())") {
+			die("filter.go: %s no longer creates/resets the progress bar around the transfer as expected:\n  have: %s", fn, txt)
+		}
+	}
+
 	// ---- getProgressText
 	body := s.fn("textProgressBar.getProgressText").Body.List
 	if len(body) != 9 {
